@@ -487,3 +487,7 @@ def _leaf_name(v):
 
 
 OBLIGATIONS = OBLIGATIONS + [m4_header_dep_conflicts]
+
+# ---- extended claim (session 4, after seed round 5)
+LEVEL_TEXT = LEVEL_TEXT + ' m4: entries depending on a detached header are removed with their descendants iff ANY of their header deps is detached (symbolic hashes), each reported with that header.'
+LEVEL_NOTE = LEVEL_NOTE + ' Header-dep conflicts: two pooled transactions, up to two detached headers.'
